@@ -105,6 +105,8 @@ pub enum DocOp {
     RelabelId { at: usize, id: String },
     /// a copy of signature #at is appended under key #to's id
     SigDupAs { at: usize, to: usize },
+    /// characters that are not hex digits are spliced into the signature value of #at at an even offset
+    SigJunk { at: usize, pos: usize, junk: String },
 }
 
 #[derive(Clone, Debug, Serialize, Deserialize, PartialEq, Default)]
@@ -386,6 +388,18 @@ pub fn apply_op(doc: &mut Value, op: &DocOp, keyspecs: &[KeySpec]) -> bool {
                 false
             }
         }
+        DocOp::SigJunk { at, pos, junk } => {
+            if *at < nsig && !junk.is_empty() {
+                let h = doc["signatures"][*at]["sig"].as_str().unwrap_or("").to_string();
+                let p = (pos % (h.len() / 2 + 1)) * 2;
+                let p = p.min(h.len());
+                let n = format!("{}{}{}", &h[..p], junk, &h[p..]);
+                doc["signatures"][*at]["sig"] = json!(n);
+                true
+            } else {
+                false
+            }
+        }
         DocOp::RelabelId { at, id } => {
             if *at < nsig && doc["signatures"][*at]["keyid"] != json!(id) {
                 doc["signatures"][*at]["keyid"] = json!(id);
@@ -594,6 +608,7 @@ pub fn op_name(op: &DocOp) -> &'static str {
         DocOp::Relabel { .. } => "RELABEL",
         DocOp::RelabelId { .. } => "RELABEL",
         DocOp::SigDupAs { .. } => "SIGDUP-RELABEL",
+        DocOp::SigJunk { .. } => "SIGJUNK",
         DocOp::SigFlip { .. } => "SIGFLIP",
         DocOp::Set { .. } => "EDIT",
         DocOp::Remove { .. } => "EDIT",
